@@ -193,7 +193,7 @@ func (t *translator) segment(sg Segment) (string, string) {
 		ps := append(params(token.NoPos, token.NoPos, ifs.Cond), ft.ext.inputs...)
 		var out strings.Builder
 		fmt.Fprintf(&out, "(* func %s: the condition of the if statement with the first call of %s in a branch *)\nDefinition %s%s %s\n  : res bool :=\n%s  Ok %s.\n\n",
-			sg.Func, sg.Cond, t.cfg.Prefix, key, strings.Join(ps, " "), binds(pres, "  "), c)
+			sg.Func, strings.ReplaceAll(sg.Cond, "(*", "( *"), t.cfg.Prefix, key, strings.Join(ps, " "), binds(pres, "  "), c)
 		return out.String(), t.cfg.Prefix + key
 	}
 
@@ -284,6 +284,9 @@ func (t *translator) segment(sg Segment) (string, string) {
 	for _, st := range seg {
 		defer t.pruneOracles(st)() // segstate.go
 	}
+	for _, st := range seg {
+		defer ft.pruneDropped(st)() // partiallit.go
+	}
 	checkErrs(lo, hi)
 	ft.root = &ast.BlockStmt{List: seg}
 	var segN, restN []ast.Node
@@ -320,6 +323,7 @@ func (t *translator) segment(sg Segment) (string, string) {
 		m.inLoop, m.loop = true, outer
 		L = ft.tupleType(outer)
 	}
+	ft.fails = ft.segFails(segN) // segfail.go
 	body := ft.block(seg, m, "  ")
 	ps := append(params(lo, hi, segN...), ft.ext.inputs...)
 	var out strings.Builder
@@ -343,6 +347,9 @@ func (ft *funcTr) readOnlyPointer(v *types.Var, nodes ...ast.Node) (reads int) {
 			if ft.segPtrUseOK(id) {
 				reads++ // segstate.go
 				return true
+			}
+			if ft.segNoReturnRecv(id) {
+				return true // segfail.go: the receiver of a no-return call is not read
 			}
 			if sel, ok := ft.parents[id].(*ast.SelectorExpr); ok && sel.X == ast.Expr(id) {
 				if s := ft.t.info.Selections[sel]; s != nil && s.Kind() == types.FieldVal {
